@@ -3,7 +3,7 @@
 // op lines (see lean/Driver/C11.lean):
 //   ev <defs> <hexexpr>              `#if <expr>` evaluated by simplecpp::preprocess (IfCond list)
 //        -> "V <result>"  |  "E <class>"      class: div0 | divov | invalid | fnmacro | other:<hexmsg>
-//   pp <defs> <undefs> <hexsrc>      simplecpp::preprocess with DUI{defines, undefined} on the source text
+//   pp <q> <defs> <undefs> <hexsrc>  simplecpp::preprocess with DUI{defines, undefined} on the source text
 //        -> "T <hex of output tokens joined by one space>"  |  "E <type>:<hexmsg>"
 //   cd <hex userDefines> <undefs> <hex cfg> <hexsrc>
 //                                   Settings{userDefines, userUndefs} -> Preprocessor::getcode(cfg) (createDUI + simplecpp)
@@ -91,6 +91,7 @@ void runSimplecpp(const std::string& code, const std::vector<std::string>& defs,
 std::string normWs(const std::string& s) {
     std::string out; bool sp = false;
     for (char c : s) {
+        if (c == '\x01') continue;   // Preprocessor::macroChar
         if (c == ' ' || c == '\n' || c == '\t' || c == '\r') { sp = true; continue; }
         if (sp && !out.empty()) out += ' ';
         sp = false;
@@ -129,9 +130,10 @@ int main() {
                     if (taken != (v != 0)) std::cout << "E branch-mismatch" << std::endl;
                     else std::cout << "V " << v << std::endl;
                 }
-            } else if (f[0] == "pp" && f.size() == 4) {
+            } else if (f[0] == "pp" && f.size() == 5) {
+                // f[1] (quirk flags) is for the Lean driver only: this harness always runs the code as it is
                 Run r;
-                runSimplecpp(unhex(f[3]), lst(f[1]), lst(f[2]), r);
+                runSimplecpp(unhex(f[4]), lst(f[2]), lst(f[3]), r);
                 const simplecpp::Output* e = firstError(r.outputList);
                 if (e) std::cout << "E " << typeName(e->type) << ":" << hex(e->msg) << std::endl;
                 else std::cout << "T " << hex(r.tokens) << std::endl;
